@@ -6,6 +6,8 @@ CONFIGS = {
     "full1": {"tla": "Cfg_full1", "assocs": [{"addr": 1024, "kind": "full"}]},
     "quiet2": {"tla": "Cfg_quiet2", "assocs": [{"addr": 1024, "kind": "quiet"}, {"addr": 1025, "kind": "quiet"}]},
     "ka2": {"tla": "Cfg_ka2", "assocs": [{"addr": 1024, "kind": "ka"}, {"addr": 1025, "kind": "quiet"}]},
+    "tsync1": {"tla": "Cfg_tsync1", "assocs": [{"addr": 1024, "kind": "full", "tsync": "nonlan"}]},
+    "tlan1": {"tla": "Cfg_tlan1", "assocs": [{"addr": 1024, "kind": "full", "tsync": "lan"}]},
     "quiet3": {"tla": "Cfg_quiet3", "assocs": [{"addr": 1024, "kind": "quiet"}, {"addr": 1025, "kind": "quiet"},
                                                {"addr": 1026, "kind": "quiet"}]},
 }
@@ -21,11 +23,14 @@ def assoc_cfg(a):
     else:
         base.update({"disable_unsol": [True] * 3, "enable_unsol": [True] * 3, "integrity": [True] * 4,
                      "integrity_on_overflow": True, "event_scan": [False] * 3})
+        if a.get("tsync"):
+            base["auto_time_sync"] = a["tsync"]
     return base
 
 
 def harness_cfg(name):
-    return {"maddr": 1, "assocs": [assoc_cfg(a) for a in CONFIGS[name]["assocs"]], "enabled": True}
+    return {"maddr": 1, "assocs": [assoc_cfg(a) for a in CONFIGS[name]["assocs"]], "enabled": True,
+            "time_base": 1600000000000}
 
 
 # one-header CROB command with a one-byte index: objects = 0c 01 17 01 <ix> <code> <count> <on x4> <off x4> <status>
@@ -71,6 +76,8 @@ def steps_of(hist, name):
                     st.update({"kind": "link_status"})
                 elif t["t"] == "empty":
                     st.update({"kind": "empty", "fc": 20})
+                elif t["t"] == "time":
+                    st.update({"kind": "time", "proc": t["proc"]})
                 else:
                     raise ValueError(t)
                 out.append(st)
@@ -105,6 +112,8 @@ def steps_of(hist, name):
                 st["mutate"] = BAD_ECHOES[(nbad[0] + salt) % len(BAD_ECHOES)]
             elif b == "g52":
                 st["hdrs"] = [{"g": 52, "v": 2, "q": 7, "count": 1, "data": "0a00"}]
+            elif b == "g52z":
+                st["hdrs"] = [{"g": 52, "v": 2, "q": 7, "count": 1, "data": "0000"}]
             elif b == "bad":
                 st["hdrs"] = [{"raw": "016306"}]
             elif b == "hdrbad":
